@@ -571,12 +571,18 @@ def funds_for(assets_amounts):
     return [(a[1], n) for (a, n) in assets_amounts if a[0] == "n"]
 
 
-def setup_pairs(h, rng, pair_assets, whitelist=None, mins=(0, 0), comm=None, provide=True, scale=None, native_decs=None):
-    """owner registers the natives, creates the pairs, everybody approves every pair, user0 seeds liquidity"""
+def setup_pairs(h, rng, pair_assets, whitelist=None, mins=(0, 0), comm=None, provide=True, scale=None, native_decs=None, even=False):
+    """owner registers the natives, creates the pairs, everybody approves every pair, user0 seeds liquidity.
+    even=True (directed matrices): balanced first deposits and no wide native decimals, whatever the seed draws - a
+    lopsided pool (10^7 : 10) makes every later provision of the matrix mint nothing and fail for that reason alone,
+    which silently empties the matrix (seed 20260930 missed C09-agent2 that way); the draws are still consumed."""
     owner = h.owner()
     for d in range(h.nd):
         # the factory puts no bound on a native's decimals (u8): gaps of 20 and more against the other asset included
-        h.do(("fac_add_native", owner, d, native_decs[d] if native_decs else rng.choice([6, 6, 6, 6, 18, 18, 18, 0, 8, 8, rng.choice([26, 38])])))    # wide gaps rarely: every swap on such a pair aborts
+        dec = rng.choice([6, 6, 6, 6, 18, 18, 18, 0, 8, 8, rng.choice([26, 38])]) if not native_decs else native_decs[d]    # wide gaps rarely: every swap on such a pair aborts
+        if even and not native_decs and dec > 18:
+            dec = 6
+        h.do(("fac_add_native", owner, d, dec))
     created = []
     for (a0, a1) in pair_assets:
         wl = whitelist if whitelist is not None else [USER0, USER0 + 1]
@@ -597,6 +603,8 @@ def setup_pairs(h, rng, pair_assets, whitelist=None, mins=(0, 0), comm=None, pro
             base = min(base, 2 ** 62)          # the first provision multiplies the two deposits in u128
             n0 = max(1, base // rng.choice([1, 1, 2, 7, 1000]))
             n1 = max(1, base // rng.choice([1, 1, 3, 5, 10 ** 6]))
+            if even:
+                n0 = n1 = base
             h.do(("provide", p, USER0, funds_for([(a0, n0), (a1, n1)]), a0, n0, a1, n1, None, None))
     return created
 
@@ -1067,6 +1075,13 @@ def auth_matrix(rng, tier):
                 h.do(("pair_receive", p, c, [], USER0, 10, ("hswap", ("t", 2), 10, None, None, None)))
                 h.do(("pair_receive", p, c, [], USER0, 10, ("hgarbage",)))
                 h.do(("router_op", c, [], ("n", 0), ("t", 2), None))
+                # the internal single-hop message "prepaid": exactly the offered coin attached, with and without a
+                # recipient, and the other shapes of funds (C14-agent14: a non-router caller accepted when the hop's own
+                # coin rides along and `to` is given)
+                if h.bank(c, 0) >= 300:
+                    for funds_, to_ in (([(0, 100)], c), ([(0, 100)], USER0), ([(0, 100)], None), ([(0, 100), (2, 1)], USER0)):
+                        if all(h.bank(c, d_) >= n_ for d_, n_ in funds_):
+                            h.do(("router_op", c, funds_, ("n", 0), ("t", 2), to_))
                 h.do(("router_assert_min", c, ("n", 0), 0, 0, USER0))
                 h.do(("router_receive", c, USER0, 5, ("hrouter", [(("n", 0), ("t", 2))], None, None)))
                 # the contracts' internal / privileged messages smuggled in as the payload of a Receive envelope whose
@@ -1094,7 +1109,7 @@ def funds_matrix(rng, tier):
     v = 1000
     for rep in range({"quick": 1, "thorough": 3}[tier]):
         h = Hist(3, 3, 1, 3, 10 ** 12, 1000, [6], "directed-matrix", "C09 declared x attached matrix")
-        created = setup_pairs(h, rng, [(("n", 0), ("n", 1)), (("n", 0), ("t", 2))], comm=3 * 10 ** 15, scale=10 ** 7)
+        created = setup_pairs(h, rng, [(("n", 0), ("n", 1)), (("n", 0), ("t", 2))], comm=3 * 10 ** 15, scale=10 ** 7, even=(rep == 0))
         nn, ntp = created[0], created[1]
         u = USER0 + 1
         attach = lambda d, decl: [None, 0, decl - 1, decl, decl + 1]
@@ -1134,7 +1149,7 @@ def provide_matrix(rng, tier):
         # the "foreign token" slot is a cw20-kind asset carrying the native leg's string
         h = Hist(3, 3, 3, 4, 10 ** 12, 1000, [6, 6, 6], "directed-matrix", "C05 provision listing matrix", look=(2, 4))
         created = setup_pairs(h, rng, [(("n", 0), ("n", 1)), (("n", 0), ("t", 2)), (("t", 2), ("t", 3)), (("n", 2), ("t", 3))],
-                              comm=3 * 10 ** 15, scale=10 ** 7)
+                              comm=3 * 10 ** 15, scale=10 ** 7, even=(rep == 0))
         u = USER0 + 1
         for p in created:
             a0, a1 = h.pair_assets(p)
@@ -1255,6 +1270,47 @@ def commission_histories(rng, tier):
             h.do(("fac_migrate", owner, p, 1 + (i + rep) % 2))
             swaps(p)
         cases.append(h.finish())
+    # one pair per NUMBER OF FRACTIONAL DIGITS of the rate (1..18 significant digits): the rate travels as a decimal string
+    # through CreatePair, the pair's instantiate message and storage, so a parser that is wrong for one digit count only
+    # shows on a pair created with such a rate (C06-agent14: 10^12 entry of a power table, six digits)
+    h = Hist(2, 3, 4, 18, 10 ** 24, 1000, [6, 18, 6, 8], "directed-matrix", "commission rates with 1..18 fractional digits")
+    owner = h.owner()
+    for d in range(h.nd):
+        h.do(("fac_add_native", owner, d, 6))
+    assets = [("n", d) for d in range(h.nd)] + [("t", 2 + t) for t in range(h.nt)]
+    sets = [(assets[i], assets[j]) for i in range(len(assets)) for j in range(i + 1, len(assets))]
+    rng.shuffle(sets)
+    for k in range(1, 19):
+        r = rng.randrange(1, 10 ** k)
+        if r % 10 == 0:
+            r += rng.randrange(1, 10)
+        if k >= 3 and rng.random() < 0.5:
+            r = r % (10 ** (k - 2)) or 1           # realistic small rates too (leading zeros after the point)
+            if r % 10 == 0:
+                r += 1
+        a0, a1 = sets[k - 1]
+        before = set(h.pairs())
+        h.do(("fac_create_pair", owner, a0, a1, [USER0], 0, 0, r * 10 ** (18 - k), None))
+        new = [p for p in h.pairs() if p not in before]
+        if not new:
+            continue
+        p = new[0]
+        for a in h.pair_assets(p):
+            if a[0] == "t":
+                for u in h.users():
+                    h.do(("incr_allow", a[1], u, p, h.ubal))
+        b0, b1 = h.pair_assets(p)
+        n0, n1 = 4 * 10 ** 10, 25 * 10 ** 9
+        h.do(("provide", p, USER0, funds_for([(b0, n0), (b1, n1)]), b0, n0, b1, n1, None, None))
+        u = USER0 + 1
+        for i, amt in ((0, 99999), (1, 12345678)):
+            offer = h.pair_assets(p)[i]
+            quote = h.query("sim %d %s %d" % (p, a_line(offer), amt))
+            if offer[0] == "n":
+                h.do(("swap", p, u, [(offer[1], amt)], offer, amt, None, None, None), quote)
+            else:
+                h.do(("send", offer[1], u, p, amt, ("hswap", offer, amt, None, None, None)), quote)
+    cases.append(h.finish())
     return cases
 
 
@@ -1267,7 +1323,7 @@ def lookalike_histories(rng, tier):
         # world A: denom 2 is spelled like token 2, which the pairs trade
         h = Hist(3, 3, 2, 3, 10 ** 12, 1000, [6, 18], "directed-matrix", "look-alike denom = traded cw20", look=(2, 2))
         created = setup_pairs(h, rng, [(("n", 0), ("t", 2)), (("t", 2), ("t", 3)), (("n", 0), ("n", 1))],
-                              comm=rng.choice([0, 3 * 10 ** 15]), scale=10 ** 8)
+                              comm=rng.choice([0, 3 * 10 ** 15]), scale=10 ** 8, even=(rep == 0))
         u = USER0 + 1
         for p in created[:2]:
             a0, a1 = h.pair_assets(p)
@@ -1293,7 +1349,7 @@ def lookalike_histories(rng, tier):
         # world B: denom 2 is spelled like token 4, which users hold but no pair trades; the pair (denom2, token3) has a
         # native leg that a cw20-kind asset can name
         h = Hist(3, 3, 3, 3, 10 ** 12, 1000, [6, 6, 18], "directed-matrix", "look-alike cw20 = traded denom", look=(2, 4))
-        created = setup_pairs(h, rng, [(("n", 2), ("t", 3)), (("n", 0), ("n", 2))], comm=3 * 10 ** 15, scale=10 ** 8)
+        created = setup_pairs(h, rng, [(("n", 2), ("t", 3)), (("n", 0), ("n", 2))], comm=3 * 10 ** 15, scale=10 ** 8, even=(rep == 0))
         for u2 in h.users():
             for p in created:
                 h.do(("incr_allow", 4, u2, p, h.ubal))
@@ -1412,7 +1468,7 @@ def swap_matrix(rng, tier):
         h = Hist(3, 3, 3, 3, 10 ** 12, 1000, [6, 6, 6], "directed-matrix", "C02 delivered x named matrix",
                  look=(2, 2 + rep % 2))
         created = setup_pairs(h, rng, [(("n", 0), ("n", 1)), (("n", 0), ("t", 2)), (("t", 2), ("t", 3))],
-                              comm=3 * 10 ** 15, scale=10 ** 8)
+                              comm=3 * 10 ** 15, scale=10 ** 8, even=(rep == 0))
         # make the cw20/cw20 pool lopsided so that naming the other token would pay off
         u = USER0 + 1
         a = 500
@@ -1697,6 +1753,23 @@ def router_histories(rng, tier):
                 h.do(("router_ops", u, [(offer[1], amount)], ops, m, to), quote)
             else:
                 h.do(("send", offer[1], u, ROUTER, amount, ("hrouter", ops, m, to)), quote)
+        # directed, last (the router is no longer empty afterwards): the router ALREADY HOLDS some of the final asset (a donation)
+        # and is itself the recipient; minimums inside (output, output + stray] must fail - the recipient's balance has to GROW
+        # by the minimum, what it held before does not count (C11-agent11 was caught only by luck of the random steps)
+        for ops in ([(A, B), (B, C)], [(B, A)]):
+            tgt = ops[-1][1]
+            stray = 5
+            h.do(("bank", USER0, ROUTER, [(tgt[1], stray)]) if tgt[0] == "n" else ("transfer", tgt[1], USER0, ROUTER, stray))
+            u = USER0 + 1
+            amount = max(1, min(h.abal(ops[0][0], u), 10 ** 6 + 7))
+            for dm in (stray, 1, 0):
+                quote = h.query("rsim %d %s" % (amount, ops_line(ops)))
+                if not quote:
+                    continue
+                if ops[0][0][0] == "n":
+                    h.do(("router_ops", u, [(ops[0][0][1], amount)], ops, quote[0] + dm, ROUTER), quote)
+                else:
+                    h.do(("send", ops[0][0][1], u, ROUTER, amount, ("hrouter", ops, quote[0] + dm, ROUTER)), quote)
         cases.append(h.finish())
     return cases
 
@@ -1720,6 +1793,25 @@ def guard_histories(rng, tier):
                     m0, m1 = (n0, n1 * mult) if a0[0] == "n" else (n0 * mult, n1)
                     h.do(("provide", p, USER0 + 1, funds_for([(a0, m0), (a1, m1)]), a0, m0, a1, m1, tol, None))
         cases.append(h.finish())
+    # top-ups that are tiny against deep, balanced pools (deposit/reserve below 10^-16): the two deposit/reserve fractions are
+    # indistinguishable at 18 digits, the price the deposits imply is not (C15-agent14: the side to check was picked by
+    # comparing the truncated fractions, ties going to the first asset)
+    h = Hist(3, 2, 2, 3, 10 ** 27, 1000, [6, 18], "directed-boundary", "slippage guard: dust top-ups of deep pools")
+    created = setup_pairs(h, rng, [(("n", 0), ("n", 1)), (("n", 0), ("t", 2)), (("t", 2), ("t", 3))], comm=3 * 10 ** 15, provide=False, native_decs=[6, 6])
+    for j, p in enumerate(created):
+        a0, a1 = h.pair_assets(p)
+        n0, n1 = [(10 ** 20, 10 ** 20), (10 ** 24, 10 ** 22), (3 * 10 ** 19, 7 * 10 ** 21)][j % 3]
+        f = 10 ** 6                    # the first provision multiplies the two deposits in u128: start smaller, then top up
+        h.do(("provide", p, USER0, funds_for([(a0, n0 // f), (a1, n1 // f)]), a0, n0 // f, a1, n1 // f, None, None))
+        h.do(("provide", p, USER0, funds_for([(a0, n0 - n0 // f), (a1, n1 - n1 // f)]), a0, n0 - n0 // f, a1, n1 - n1 // f, None, None))
+        for (m0, m1) in ((1005, 1099), (1099, 1005), (1000, 5000), (5000, 1000), (1000, 1001), (7, 9), (1, 2), (2, 1), (1, 1)):
+            # scale the second deposit to the pool's ratio so that the pair (m0, m1) expresses the imbalance only
+            e0, e1 = m0 * max(1, n0 // n1), m1 * max(1, n1 // n0)
+            for tol in (5 * 10 ** 16, 10 ** 16, None) if tier == "quick" else (5 * 10 ** 16, 10 ** 16, 5 * 10 ** 17, 10 ** 15, None):
+                u = USER0 + 1
+                h.do(("provide", p, u, funds_for([(a0, e0), (a1, e1)]), a0, e0, a1, e1, tol, None))
+                h.do(("provide", p, u, funds_for([(a1, e1), (a0, e0)]), a1, e1, a0, e0, tol, None))
+    cases.append(h.finish())
     for rep in range({"quick": 3, "thorough": 30}[tier]):
         h = Hist(3, 2, 2, 3, 10 ** 24, 1000, [rng.choice([0, 6, 18]), rng.choice([6, 18])], "directed-boundary", "guards at system level")
         created = setup_pairs(h, rng, [(("n", 0), ("t", 2)), (("t", 2), ("t", 3)), (("n", 0), ("n", 1))], comm=3 * 10 ** 15)
@@ -1789,5 +1881,38 @@ def guard_histories(rng, tier):
                 h.do(o)
             else:
                 h.do(gen_provide(h, rng, p, u))
+        # directed, last: the factory owner registers each native denom AGAIN with other decimals; afterwards the guard must
+        # normalise with the NEW decimals (C10-agent14: a second copy of the decimals, saved at instantiate, went stale).
+        # Belief prices at, 100x above and 100x below the executed price (in the new normalisation), spread limit 1%: the
+        # decision differs between the old and the new decimals in one direction or the other.
+        owner = h.owner()
+        for d in range(h.nd):
+            old = h.snap[h.off_fac + 1 + d] - 1 if h.snap[h.off_fac + 1 + d] > 0 else 6
+            newdec = old + 2 if old + 2 <= 18 and (rep + d) % 2 == 0 else max(0, old - 2) if old >= 2 else old + 2
+            h.do(("fac_add_native", owner, d, newdec))
+        for p in h.pairs():
+            assets = h.pair_assets(p)
+            if not any(a[0] == "n" for a in assets):
+                continue
+            for i in (0, 1):
+                offer = assets[i]
+                u = USER0 + 1 + i
+                r = h.reserves(p)
+                amount = min(h.abal(offer, u), max(1, r[i] // 1000) + 3)
+                if amount <= 0:
+                    continue
+                q = h.query("sim %d %s %d" % (p, a_line(offer), amount))
+                if not q or q[0] == 0:
+                    continue
+                od, rd = h.pair(p, 5 + i), h.pair(p, 6 - i)
+                onorm = amount * 10 ** (rd - od) if rd > od else amount
+                rnorm = q[0] * 10 ** (od - rd) if od > rd else q[0]
+                price = onorm * D // rnorm
+                for bp in (price, price * 100, max(1, price // 100), price * 10 ** 4, max(1, price // 10 ** 4)):
+                    bp = min(bp, 2 ** 128 - 3)
+                    if offer[0] == "n":
+                        h.do(("swap", p, u, [(offer[1], amount)], offer, amount, bp, D // 100, None))
+                    else:
+                        h.do(("send", offer[1], u, p, amount, ("hswap", offer, amount, bp, D // 100, None)))
         cases.append(h.finish())
     return cases
